@@ -248,6 +248,24 @@ func RegexDiffWitness(re interface{ MatchString(string) bool }, grammar string) 
 // Harness returns the name of the harness that is running natively (used by generated stub wrappers).
 func Harness() string { return st.harness }
 
+var stubDepth = map[string]int{}
+
+// EnterStub / LeaveStub guard generated native stub wrappers against re-entry, so that a stub can call the
+// function it replaces (the nested call reaches the original, as under the engine).
+func EnterStub(key string) bool {
+	if stubDepth[key] > 0 {
+		return false
+	}
+	stubDepth[key]++
+	return true
+}
+func LeaveStub(key string) { stubDepth[key]-- }
+
+type stopped struct{}
+
+// Stop ends the current path (used after a crash point has been checked).
+func Stop() { panic(stopped{}) }
+
 // Symbolic reports whether the harness runs under the symbolic engine with symbolic draws.
 func Symbolic() bool { return false }
 
@@ -377,6 +395,8 @@ func run(name string, f func()) (res result) {
 				res.Status = "assume"
 			case exhausted:
 				res.Status = "exhausted"
+			case stopped:
+				res.Status = "ok"
 			default:
 				res.Status = "panic"
 				res.Msg = fmt.Sprint(r)
